@@ -222,7 +222,8 @@ def t09_sort(run, fx):
 def t09_loca(run, fx):
     rule = "T09-LOCA"
     run.rule(rule, "add_head_table stores table.index_to_loc_format of the head it writes; add_glyf_table hands self.index_to_loc_format to both the "
-                   "glyf and the loca writer and is the only place that adds GLYF/LOCA; add_table refuses HEAD and GLYF")
+                   "glyf and the loca writer and is the only place that adds GLYF/LOCA; add_table refuses HEAD and GLYF; the WOFF2 table provider writes loca "
+                   "with the index_to_loc_format field of the very head table it serialises")
     b = fx.body("subset::FontBuilder::add_head_table")
     if b is None:
         run.anchor_missing(rule, "add_head_table")
@@ -334,6 +335,31 @@ def t09_stale(run, fx):
                 run.ok(rule, "loca written after the last store to head")
 
 
+def t09_loca_woff2(run, fx):
+    rule = "T09-LOCA"
+    # (second clause of T09-LOCA; the rule text is registered by t09_loca)
+    bs = [b for b in fx.bodies if b.kind != "Closure" and b.root.endswith("Woff2TableProvider::new")]
+    if not bs:
+        return run.anchor_missing(rule, "woff2::Woff2TableProvider::new")
+    b = bs[0]
+    prov = sym.Prov(b)
+    n = 0
+    for bi, t in b.calls():
+        p = t["callee"].get("path") or ""
+        ga = " ".join(t["callee"].get("args") or [])
+        if p.endswith("write::buffer") and "LocaTable" in ga and len(t["args"]) >= 2:
+            n += 1
+            fmt = prov.op(t["args"][1])
+            if any(x[0] == "field" and x[2] == "index_to_loc_format" for x in sym.walk(fmt)) and any(
+                    x[0] == "local" and len(x) > 2 and x[2] == "head" for x in sym.walk(fmt)):
+                run.ok(rule, "Woff2TableProvider::new: loca is written with head.index_to_loc_format, the field of the head table it serialises")
+            else:
+                run.fail(rule, "loca:woff2-format", "Woff2TableProvider::new writes loca with %s instead of the index_to_loc_format field of the head table "
+                         "it serialises: head and loca can disagree about the offset format" % sym.show(sym.strip(fmt))[:70], b.loc(t))
+    if n == 0:
+        run.anchor_missing(rule, "write::buffer::<_, LocaTable> in Woff2TableProvider::new")
+
+
 def check(run, fx, tier, floors=True):
     t09_prod(run, fx)
     t09_order(run, fx)
@@ -341,6 +367,8 @@ def check(run, fx, tier, floors=True):
     t09_rec(run, fx)
     t09_sort(run, fx)
     t09_loca(run, fx)
+    if floors or any(b.root.endswith("Woff2TableProvider::new") for b in fx.bodies):
+        t09_loca_woff2(run, fx)
     t09_stale(run, fx)
     if floors or fx.adt("tables::glyf::CompositeGlyphs") is not None:
         # the glyf composite codec is shared: reader (used by the WOFF2 reconstruction) and writer must agree on the instruction flag
